@@ -67,6 +67,9 @@ package agent
 //@   guard-call relayonce: "DecryptBuffer" iter__ == 0
 //@   loop "for AgentHdr.Data.CanIRead(([]parser.ReadType{parser.ReadInt32, parser.ReadInt32}))"
 //@     invariant once: iter__ > 0 ==> !first_iter
+// C15: a reverse port forward is recorded with the ids, addresses and ports the callback carries, and its
+// dial target is the forward address and the forward port (not the local one)
+//@   guard-call fwd: "PortFwdNew" arg(0) == a && arg(1) == SocktID && arg(2) == LclAddr && arg(3) == LclPort && arg(4) == FwdAddr && arg(5) == FwdPort && lastarg(Int32ToIpString, 0) == FwdAddr && arg(6) == lastresult(Int32ToIpString) + ":" + ufs_itoa(FwdPort)
 // C09: a disconnect callback detaches, from the reporting agent, the child whose id the callback carries
 //@   guard-call unlink: "LinkRemove" arg(1) == a && arg(2) == lastresult(AgentInstance) && lastarg(AgentInstance, 1) == lastresult(ParseInt32)
 // C07: a file chunk / close callback names the transfer by the big-endian id in its
@@ -338,11 +341,18 @@ package agent
 //@   guard-call targetid: "AddInt32#1" arg(1) == int32(uf_hexval(a.NameID))
 //@   guard-call hopid: "AddInt32#2" arg(1) == int32(uf_hexval(atloophead(pivots).Parent.NameID))
 //@   guard-call body: "AddBytes" sameslice(arg(1), Payload)
+// the innermost message is the task itself; every further layer wraps exactly the frame built so far
+// (a COMMAND_PIVOT / SMB-command job of three fields), never the bare task again
+//@ spec pivotFrame(j) = j.Command == COMMAND_PIVOT && len(j.Data) == 3 && typeis(j.Data[0], int) && unboxed(j.Data[0], int) == DEMON_PIVOT_SMB_COMMAND && typeis(j.Data[1], uint32) && typeis(j.Data[2], []byte)
+//@   guard-call innermost: "BuildPayloadMessage#1" len(arg(0)) == 1 && arg(0)[0] == job
+//@   guard-call wraps:     "BuildPayloadMessage#2" len(arg(0)) == 1 && arg(0)[0] == atloophead(PivotJob) && pivotFrame(arg(0)[0])
+//@   guard-call queued:    "append" len(arg(1)) == 1 && ((sameslice(arg(0), a.JobQueue) && arg(1)[0] == job) || (inscope("pivots") && arg(1)[0] == PivotJob && pivotFrame(arg(1)[0])))
 // the wrapped job is queued on the first hop: the ancestor that has no parent itself
 //   (the only other append is the display copy on the target's own queue)
 //@   guard-call queue: "append" sameslice(arg(0), a.JobQueue) || (pivots != nil && pivots.Parent.Pivots.Parent == nil && sameslice(arg(0), pivots.Parent.JobQueue))
 //@   loop "for"
 //@     invariant chain: pivots != nil && pivots.Parent != nil && err == nil
+//@     invariant frame: pivotFrame(PivotJob)
 
 // ---------------------------------------------------------------------------
 // C07: loot containment and the download table.
